@@ -62,8 +62,11 @@ COMMENTS = ["#c%d", "# ok %d", "#=%d", "##x%d", "#é%d", "# id-like"]
 PATTERNS = ['"a\\\\d+"', '"é\\\\d+"', '"ééééé\\\\w"', '"[a-z]+"', '`raw\\d`', '"q\\\\.r"', '"tick`\\\\d"', '"\\\\\\\\x"']
 
 
-def gen_module(rng, idx):
-    lines = ["package p%d" % idx, "", "# id:%d" % idx, "import rego.v1", ""]
+PKG_TAILS = ["", "", "", "_test", ".integration_tests", ".a_test_b", "_tests", ".unit_test"]
+
+
+def gen_module(rng, idx, pkg=None):
+    lines = ["package %s" % (pkg or "p%d" % idx), "", "# id:%d" % idx, "import rego.v1", ""]
     n = rng.randint(1, 7)
     for k in range(n):
         r = rng.random()
@@ -99,14 +102,41 @@ def gen_fix_cases(ctx, tag, n):
     cases = []
     for k in range(n):
         files = {}
-        for i in range(rng.randint(1, 3)):
-            d = rng.choice(["p%d" % i, "wrong", "p%d/sub" % i])
-            files["/w/%s/f%d.rego" % (d, i)] = gen_module(rng, i)
+        mode = rng.random()
+        if mode < 0.25:
+            # several files of ONE package under the same base name in different directories: the moves collide on one
+            # target path (which may already be occupied), so rename candidates are needed repeatedly
+            pkg = "p0" + rng.choice(["", "", ".q"])
+            dirs = rng.sample(["p0", "p0/q", "wrong", "other", "x/y", "p0_1"], rng.randint(2, 4))
+            for i, d in enumerate(dirs):
+                files["/w/%s/f.rego" % d] = gen_module(rng, i, pkg)
+        else:
+            for i in range(rng.randint(1, 3)):
+                pkg = "p%d%s" % (i, rng.choice(PKG_TAILS)) if mode < 0.6 else None
+                d = rng.choice(["p%d" % i, "wrong", "p%d/sub" % i] + ([pkg.replace(".", "/")] if pkg else []))
+                files["/w/%s/f%d.rego" % (d, i)] = gen_module(rng, i, pkg)
         enable = [r for r in FIXABLE if rng.random() < 0.7] or ["use-assignment-operator"]
         if tag == "c11":
             enable = [r for r in enable if r != "directory-package-mismatch"] or ["no-whitespace-comment"]
         cases.append({"id": k, "op": "c11.fix", "files": files, "enable": enable, "root": "/w"})
     return cases
+
+
+def grid_cases(first_id):
+    """two fixable violations of the SAME rule on one line, for every small combination of sizes: fixing the left one
+    shifts the right one's column (the fixer must re-lint before applying it)"""
+    out = []
+    for e in range(1, 5):
+        for ln in range(0, 7):
+            p1 = '"' + "\\\\d" * e + '"'
+            p2 = '"' + "-x.yz+"[:ln] + '"'
+            body = ("package p0\n\n# id:0\nimport rego.v1\n\n"
+                    "v if [regex.match(%s, input.id), regex.match(%s, \"a-b\")] == [true, true]\n"
+                    "w = 1 # x = 2\nu = {\"a=b\": 1}[\"a=b\"]\n" % (p1, p2))
+            out.append({"id": first_id + len(out), "op": "c11.fix", "files": {"/w/p0/f0.rego": body},
+                        "enable": ["non-raw-regex-pattern", "use-assignment-operator", "no-whitespace-comment"], "root": "/w",
+                        "_directed": True})
+    return out
 
 
 def judge_c11(ctx, c, r):
@@ -119,6 +149,8 @@ def judge_c11(ctx, c, r):
         ctx.fail("the fixer panicked", desc, None, r)
         return
     if st == "lint-rejects-input":
+        if c.get("_directed"):
+            ctx.brk("directed fixer input must be lintable (harness)", desc, o.get("err"), None)
         return
     if st == "timeout":
         return  # C12's business
@@ -137,6 +169,7 @@ def classify(c, o):
 def run(ctx):
     part_fn(ctx)
     cases = gen_fix_cases(ctx, "c11", 60 if ctx.quick else 800)
+    cases += grid_cases(len(cases))
     impl = ctx.impl(cases, timeout=3000, procs=12)
     for c in cases:
         judge_c11(ctx, c, impl[c["id"]])
